@@ -214,6 +214,52 @@ def _threads():
     return numba.get_num_threads()
 
 
+def run_threads_case(case, ctx, mon):
+    """Several threads, each merging its own unrelated pair of large linear tables (>= 4 MiB each) at the same time: every
+    result must be min(a + n*b, cap) cell by cell, b unchanged - whatever scratch space a merge uses belongs to that merge."""
+    import threading
+
+    n_thr, n_merges, d, w = case["threads"], case["merges"], case["depth"], case["width"]
+    rng = np.random.default_rng(case["seed"])
+    cfg = {"kind": "linear", "width": w, "depth": d}
+    pairs, refs = [], []
+    for t in range(n_thr):
+        a, b = state.make(cfg), state.make(cfg)
+        a.cms[...] = rng.integers(0, 2**32, size=(d, w), dtype=np.uint64).astype(np.uint32)
+        b.cms[...] = rng.integers(0, 2000, size=(d, w), dtype=np.uint64).astype(np.uint32)
+        a.cms[0, : w // 2] = rng.integers(0, 2**20, size=w // 2, dtype=np.uint64).astype(np.uint32)
+        pairs.append((a, b))
+        refs.append((a.cms.astype(np.uint64), b.cms.copy()))
+    errors = []
+    barrier = threading.Barrier(n_thr)
+
+    def work(t):
+        try:
+            a, b = pairs[t]
+            for _ in range(n_merges):
+                barrier.wait(timeout=120)
+                a.merge(b)
+        except Exception as exc:  # noqa: BLE001
+            errors.append(f"thread {t}: {type(exc).__name__}: {exc}")
+
+    ts = [threading.Thread(target=work, args=(t,)) for t in range(n_thr)]
+    for t in ts:
+        t.start()
+    for t in ts:
+        t.join(600)
+    mon.check(not errors, "concurrent-merges-of-unrelated-sketches-all-succeed", errors=errors[:3])
+    for t, ((a, b), (a0, b0)) in enumerate(zip(pairs, refs)):
+        want = np.minimum(a0 + n_merges * b0.astype(np.uint64), CAP).astype(np.uint32)
+        bad = np.flatnonzero(a.cms.ravel() != want.ravel())
+        mon.check(len(bad) == 0, "merge-linear==min(a+b,cap)", n_bad=int(len(bad)), thread=t, threads=n_thr, merges=n_merges, shape=[d, w],
+                  first=[[int(a.cms.ravel()[i]), int(want.ravel()[i])] for i in bad[:3]], how="own pair of tables merged while other threads merged theirs")
+        mon.check(np.array_equal(b.cms, b0), "merge-leaves-b-unchanged", thread=t)
+        mon.tick("merge-linear==min(a+b,cap)", a.cms.size)
+    mon.count("concurrent_merge_cases")
+    mon.count("concurrent_merges", n_thr * n_merges)
+    mon.nontrivial(True)
+
+
 def run_estimate_case(case, ctx, mon):
     """Linear sketches built by real adds: merged estimate >= min(sum of the two estimates, cap)."""
     rng = np.random.default_rng(case["seed"])
@@ -240,6 +286,12 @@ def gen_cases(ctx):
     q = ctx.quick
     sh, ns = ctx.shard, ctx.nshards
     cases = []
+    # the same explicit (max_count, num_reserved) pair used by both log classes in one process, in either order (whatever one
+    # class computed or cached for the pair must not leak into the other class)
+    for first, second, (mc, nr) in (("log16", "log8", (200000, 7)), ("log8", "log16", (100000, 9)), ("log16", "log8", (2**20, 15))):
+        for kind in (first, second):
+            cases.append({"type": "table", "kind": kind, "cfg": {"max_count": mc, "num_reserved": nr}, "class_order": f"{first}-then-{second}",
+                          "pattern": "all-pairs-256" if kind == "log8" else "all-counters-vs-empty"})
     for mc, nr in LOG8_GRID:
         cases.append({"type": "table", "kind": "log8", "cfg": {"max_count": mc, "num_reserved": nr}, "pattern": "all-pairs-256"})
     for mc, nr in LOG16_GRID[: (3 if q else len(LOG16_GRID))]:
@@ -264,6 +316,8 @@ def gen_cases(ctx):
     for i, (dd, ww) in enumerate([(16, 2048), (33, 7), (1, 1), (5, 257), (8, 1009), (3, 1000), (1, 17), (17, 1)]):
         cases.append({"type": "table", "kind": "linear", "cfg": {}, "pattern": "linear-random", "seed": int(rng.integers(0, 2**31)),
                       "depth": dd, "width": ww})
+    cases.append({"type": "threads", "threads": 4, "merges": 8, "depth": 8, "width": 131072, "seed": int(rng.integers(0, 2**31))})
+    cases.append({"type": "threads", "threads": 3, "merges": 8, "depth": 3, "width": 1001, "seed": int(rng.integers(0, 2**31))})
     for i in range(6):
         cases.append({"type": "estimate", "seed": int(rng.integers(0, 2**31)), "width": int(rng.integers(1, 20)), "depth": int(rng.integers(1, 6))})
     for i, c in enumerate(cases):
@@ -287,6 +341,8 @@ def gen_cases(ctx):
 def run_case(case, ctx, mon):
     if case["type"] == "table":
         run_table_case(case, ctx, mon)
+    elif case["type"] == "threads":
+        run_threads_case(case, ctx, mon)
     else:
         run_estimate_case(case, ctx, mon)
 
@@ -308,4 +364,5 @@ def floors(mon, ctx):
         mon.floor(f"{kind} cells rounded up", mon.counters[f"{kind}_cells_rounded_up"], 1000)
     mon.floor("log16 pairs", mon.counters["log16_pairs"], 10**6)
     mon.floor("linear saturating cells", mon.counters["linear_cells_saturating"], 100)
+    mon.floor("merges of unrelated large tables running in several threads at once", mon.counters["concurrent_merges"], 30)
     mon.floor("estimate cases", mon.counters["estimate_cases"], 3)
